@@ -64,6 +64,12 @@ func (c *Client) UploadReq(path []string, name string, size uint32, resume bool)
 // after exactly cutAt bytes were sent.  Otherwise waits for the server to close.
 // chunk > 0 writes in pieces of that size (each Write is one TCP send).
 func (c *Client) SendStream(stream []byte, cutAt int, chunk int) *simnet.Conn {
+	return c.SendStreamCut(stream, cutAt, chunk, false)
+}
+
+// SendStreamCut is SendStream with a choice of how the connection dies at the cut: reset, or a graceful
+// close (the server reads a clean EOF in the middle of the stream).
+func (c *Client) SendStreamCut(stream []byte, cutAt int, chunk int, graceful bool) *simnet.Conn {
 	x := c.DialXfer()
 	if x == nil {
 		return nil
@@ -86,7 +92,11 @@ func (c *Client) SendStream(stream []byte, cutAt int, chunk int) *simnet.Conn {
 	if cutAt >= 0 {
 		// let the server consume what was sent, then kill the connection
 		c.waitDrained(x)
-		x.Reset()
+		if graceful {
+			_ = x.Close()
+		} else {
+			x.Reset()
+		}
 		return x
 	}
 	c.waitClose(x, 20*time.Second)
